@@ -1,13 +1,17 @@
-import CnbVerif.Lemmas.RmTree5
+import CnbVerif.Lemmas.RmTree6
 /-!
 # C11 — deleting or recreating a layer never touches anything outside that layer
 
 Model: `Model/RmTree.lean` — a file system with symlinks and permission modes, path resolution as the kernel does it,
 `remove_dir_recursively` (as repaired for D4 and D8: a path that is not a directory — a symlink, a regular file — is
 unlinked as such, never `chmod`-ed, never descended into),
-`delete_layer`, and the three public operations that delete and recreate a layer. Spec: `Spec/Frame.lean` — `Frame`
+`delete_layer`, and the three public operations that delete and recreate a layer, each with the outcome of the
+buildpack's part of the call (`Bp`: every callback succeeds / `Layer::create` returns `Err` / the deciding callback
+returns `Err`), in the code's order: read, decide, delete, `create_dir_all`, `create`, write. Spec: `Spec/Frame.lean` — `Frame`
 (everything outside the layer's own paths is exactly as it was: kind, mode, content, link target), `Gone`, `Recreated`,
-and their executable forms `judgeDelete` / `judgeRequest`, which are what judges the real code's snapshots.
+`OldGone` (after the deleting half of a recreate no entry of the old layer survives, whether or not the creating half
+succeeds), `Intact` (a call that ends before the deletion has deleted or altered nothing of the layer),
+and their executable forms `judgeDelete` / `judgeRequest` / `judgeOutcome`, which are what judges the real code's snapshots.
 
 Every theorem is for **every** file system state `t` (any depth, any modes, links to files or directories inside or
 outside the layer, relative or absolute, dangling, cyclic, the layer path itself a link, **hard links**: names inside
@@ -88,29 +92,111 @@ theorem unlink_keeps_other_names (root : Bool) (t t' : FS) (p : Path) (h : unlin
 
 /-- **M3 (frame of the public operations).** `uncached_layer`, `cached_layer` with a `DeleteLayer` decision and the
 trait API's `handle_layer` with `Recreate` — reading the layer, deleting it, creating it anew, wherever they stop —
-leave every path outside the layer's own exactly as it was. -/
-theorem request_frame (root : Bool) (api : Api) (t : FS) (n : Name) (hL : LayersDir t) :
-    ∀ p, outside n p = true → fget (request root api t n).2 p = fget t p :=
-  request_frame_lemma root api t n hL
+leave every path outside the layer's own exactly as it was, whatever the buildpack's callbacks answer (`bp`: all succeed,
+`Layer::create` fails, the deciding callback fails). -/
+theorem request_frame (root : Bool) (api : Api) (bp : Bp) (t : FS) (n : Name) (hL : LayersDir t) :
+    ∀ p, outside n p = true → fget (request root api bp t n).2 p = fget t p :=
+  request_frame_lemma root api bp t n hL
 
 /-- **M3 (the layer's own entries are gone).** When such an operation reports having deleted an existing layer and
 succeeds, all former entries are gone and a fresh empty layer stands in their place: a real directory with nothing
 below it, the freshly written `<n>.toml`, no SBOM file. -/
-theorem request_recreated (root : Bool) (api : Api) (t : FS) (n : Name) (hwf : WF t) (hL : LayersDir t)
-    (hok : (request root api t n).1 = .ok true) :
-    Recreated n (freshDoc api) (request root api t n).2 := by
+theorem request_recreated (root : Bool) (api : Api) (bp : Bp) (t : FS) (n : Name) (hwf : WF t) (hL : LayersDir t)
+    (hok : (request root api bp t n).1 = .ok true) :
+    Recreated n (freshDoc api) (request root api bp t n).2 := by
   have : freshDoc api = freshToml api := by cases api <;> rfl
   rw [this]
-  exact request_recreated_lemma root api t n hL (wf_below t hwf (layerPath n) (layerPath_ne n)) hok
+  exact request_recreated_lemma root api bp t n hL (wf_below t hwf (layerPath n) (layerPath_ne n)) hok
+
+/-- **M3 (the old layer's entries are gone also when the creating half fails).** A recreate is a deletion followed by
+the buildpack's `Layer::create`. When that callback returns `Err` after the existing layer was deleted (the request
+fails at stage `recreate`), no entry of the old layer survives: nothing below `<layers>/<n>`, which is at most a real
+(new, empty) directory — never the old link or file —, and neither the old `<n>.toml` nor any old SBOM file stands where
+it stood. (The model leaves exactly the new empty directory: `failed_create_leaves_empty_dir`.) -/
+theorem request_failed_create (root : Bool) (api : Api) (bp : Bp) (t : FS) (n : Name) (hwf : WF t) (hL : LayersDir t)
+    (e : Err) (herr : (request root api bp t n).1 = .error (.recreate, e)) :
+    OldGone n t (request root api bp t n).2 :=
+  oldGone_of_emptyDirOnly t
+    (request_failed_create_lemma root api bp t n hL (wf_below t hwf (layerPath n) (layerPath_ne n)) e herr)
+
+/-- What exactly the failed creating half leaves in the model (`create_dir_all` runs before `Layer::create`): a real
+directory at `<layers>/<n>` and no other own path — no `<n>.toml`, no SBOM file, nothing below the directory. -/
+theorem failed_create_leaves_empty_dir (root : Bool) (api : Api) (bp : Bp) (t : FS) (n : Name) (hwf : WF t) (hL : LayersDir t)
+    (e : Err) (herr : (request root api bp t n).1 = .error (.recreate, e)) :
+    (∃ m, fget (request root api bp t n).2 (layerDir n) = some (.dir m)) ∧
+    ∀ p, own n p = true → p ≠ layerDir n → fget (request root api bp t n).2 p = none :=
+  request_failed_create_lemma root api bp t n hL (wf_below t hwf (layerPath n) (layerPath_ne n)) e herr
+
+/-- **M3 (a call that ends before the deletion deletes nothing).** When the deciding callback
+(`restored_layer_action` / `invalid_metadata_action`, `existing_layer_strategy` / `migrate_incompatible_metadata`)
+returns `Err`, every own path of the layer has exactly the node it had — except that a `<n>.toml` may have been written
+where there was none (the reader's normalisation of a layer directory without metadata file). With `request_frame`:
+nothing at all changed but, possibly, that one new file. -/
+theorem request_failed_decide (root : Bool) (api : Api) (bp : Bp) (t : FS) (n : Name) (hL : LayersDir t)
+    (e : Err) (herr : (request root api bp t n).1 = .error (.decide, e)) :
+    Intact n t (request root api bp t n).2 :=
+  request_failed_decide_lemma root api bp t n hL e herr
 
 /-- M3 in the form the oracle evaluates on the two snapshots of a request. -/
-theorem request_meets_oracle (root : Bool) (api : Api) (t : FS) (n : Name) (hwf : WF t) (hL : LayersDir t) :
-    judgeRequest n (freshDoc api) (decide ((request root api t n).1 = .ok true)) t (request root api t n).2 = true := by
+theorem request_meets_oracle (root : Bool) (api : Api) (bp : Bp) (t : FS) (n : Name) (hwf : WF t) (hL : LayersDir t) :
+    judgeRequest n (freshDoc api) (decide ((request root api bp t n).1 = .ok true)) t (request root api bp t n).2 = true := by
   unfold judgeRequest
-  rw [frameB_of_frame (request_frame_lemma root api t n hL)]
-  by_cases hok : (request root api t n).1 = .ok true
-  · simp [hok, recreatedB_of_recreated (request_recreated root api t n hwf hL hok)]
+  rw [frameB_of_frame (request_frame_lemma root api bp t n hL)]
+  by_cases hok : (request root api bp t n).1 = .ok true
+  · simp [hok, recreatedB_of_recreated (request_recreated root api bp t n hwf hL hok)]
   · simp [hok]
+
+/-- M3 with the failing callbacks, in the form the oracle evaluates on the two snapshots of a request, by how the request
+ended (`outcomeOf`: recreated / `create` failed after the deletion / the deciding callback failed / anything else). -/
+theorem request_meets_outcome_oracle (root : Bool) (api : Api) (bp : Bp) (t : FS) (n : Name) (hwf : WF t) (hL : LayersDir t) :
+    judgeOutcome n (freshDoc api) (outcomeOf (request root api bp t n).1) t (request root api bp t n).2 = true := by
+  unfold judgeOutcome
+  rw [frameB_of_frame (request_frame_lemma root api bp t n hL)]
+  cases hres : (request root api bp t n).1 with
+  | ok b =>
+    cases b with
+    | false => rfl
+    | true => simp [outcomeOf, recreatedB_of_recreated (request_recreated root api bp t n hwf hL hres)]
+  | error x =>
+    obtain ⟨st, e⟩ := x
+    cases st with
+    | read => rfl
+    | delete => rfl
+    | write => rfl
+    | create => rfl
+    | decide => simp [outcomeOf, intactB_of_intact (request_failed_decide root api bp t n hL e hres)]
+    | recreate => simp [outcomeOf, oldGoneB_of_oldGone (request_failed_create root api bp t n hwf hL e hres)]
+
+/-- The buildpack's errors arise only where the callbacks are: stage `decide` only when the deciding callback was made
+to fail on an API that has one, stages `create` / `recreate` only when `Layer::create` was (trait API). So a request
+with well-behaved callbacks (`Bp.ok`) is the request of `request_recreated`. -/
+theorem buildpack_errors_only_when_asked (root : Bool) (api : Api) (t : FS) (n : Name) (st : Stage) (e : Err)
+    (h : (request root api .ok t n).1 = .error (st, e)) : st = .read ∨ st = .delete ∨ st = .write := by
+  have hcl : ∀ (b : Bool) (s : FS), (tag b (createLayer root api .ok s n)).1 = .error (st, e) → st = .write := by
+    intro b s h
+    obtain ⟨st', hr, hst⟩ := tag_fst_err h
+    rcases createLayer_stage root api .ok s n st' e hr with h' | ⟨_, h'⟩
+    · subst h'; cases b <;> simp at hst <;> exact hst
+    · simp [createFails] at h'
+  unfold request at h
+  dsimp only at h
+  split at h
+  · exact Or.inr (Or.inr (hcl _ _ h))
+  · split at h
+    · split at h
+      · cases h; exact Or.inl rfl
+      · exact Or.inr (Or.inr (hcl _ _ h))
+    · split at h
+      · cases h; exact Or.inl rfl
+      · split at h
+        · cases h; exact Or.inl rfl
+        · split at h
+          · cases h; exact Or.inl rfl
+          · split at h
+            · rename_i hd; simp [decideFails] at hd
+            · split at h
+              · cases h; exact Or.inr (Or.inl rfl)
+              · exact Or.inr (Or.inr (hcl _ _ h))
 
 /-- M3 over an abstract creating step: deleting a layer and then doing anything that only writes the layer's own paths
 leaves everything else as it was. -/
@@ -180,8 +266,8 @@ example : (deleteLayer true hardLinked [97]).1 = .ok () ∧ (deleteLayer false h
     (deleteLayer false hardLinked [97]).2 =
       [([layersName], .dir 0o755), ([layersName, [97, 120]], .dir 0o700), ([layersName, [97, 120], [102]], .hard 3 0 []),
        ([[99]], .dir 0o500), ([[99], [5]], .hard 1 0o444 [1]), ([[99], [6]], .hard 4 0o644 [4])] ∧
-    (request false .cached hardLinked [97]).1 = .ok true ∧
-    fget (request false .cached hardLinked [97]).2 [[99], [5]] = some (.hard 1 0o444 [1]) := by decide
+    (request false .cached .ok hardLinked [97]).1 = .ok true ∧
+    fget (request false .cached .ok hardLinked [97]).2 [[99], [5]] = some (.hard 1 0o444 [1]) := by decide
 
 /-- The inode semantics is not vacuous: clearing the read-only flag through the inside name `h` (what a "make it
 writable, then remove it" loop body would do) shows under the outside name `c/5` — the mode belongs to the inode. -/
@@ -208,8 +294,8 @@ theorem d8_repaired :
     (deleteLayer true sharedTop [97]).1 = .ok () ∧ (deleteLayer false sharedTop [97]).1 = .ok () ∧
     (deleteLayer false sharedTop [97]).2 = [([layersName], .dir 0o755), ([[99]], .dir 0o700), ([[99], [5]], .hard 1 0o444 [1])] ∧
     frameB [97] sharedTop (deleteLayer true sharedTop [97]).2 = true ∧
-    (request false .handle sharedTop [97]).1 = .ok true ∧
-    fget (request false .handle sharedTop [97]).2 [[99], [5]] = some (.hard 1 0o444 [1]) := by decide
+    (request false .handle .ok sharedTop [97]).1 = .ok true ∧
+    fget (request false .handle .ok sharedTop [97]).2 [[99], [5]] = some (.hard 1 0o444 [1]) := by decide
 
 /-- `<layers>/a` a private regular file without write permission: it is unlinked (never `chmod`-ed), the request
 recreates the layer as a directory -/
@@ -217,8 +303,8 @@ example :
     let t : FS := [([layersName], .dir 0o755), ([layersName, [97]], .file 0 [1]), ([layersName, tomlName [97]], .file 0o644 [84]),
       ([layersName, [98]], .dir 0o700)]
     (deleteLayer false t [97]).1 = .ok () ∧ (deleteLayer false t [97]).2 = [([layersName], .dir 0o755), ([layersName, [98]], .dir 0o700)] ∧
-    (request false .uncached t [97]).1 = .ok true ∧
-    fget (request false .uncached t [97]).2 [layersName, [97]] = some (.dir 0o755) := by decide
+    (request false .uncached .ok t [97]).1 = .ok true ∧
+    fget (request false .uncached .ok t [97]).2 [layersName, [97]] = some (.dir 0o755) := by decide
 
 /-- A layer with a read-only nested directory (`r`, mode 0500, holding a file), a non-searchable one (`z`, mode 000),
 a relative link to an outside directory, an absolute link to an outside file, a two-link cycle, a dangling link, a
@@ -258,8 +344,53 @@ example :
     fget (deleteLayer false t [97]).2 [layersName, [98]] = some (.dir 0o700) := by decide
 
 /-- non-vacuity of M3: a request on `mixed` and on the top-level link deletes and recreates -/
-example : (request true .uncached mixed [97]).1 = .ok true ∧ (request false .handle mixed [97]).1 = .ok true ∧
-    (request true .cached topLink [97]).1 = .ok true ∧
-    fget (request true .cached topLink [97]).2 [[99], [5]] = some (.file 0o600 [1]) := by decide
+example : (request true .uncached .ok mixed [97]).1 = .ok true ∧ (request false .handle .ok mixed [97]).1 = .ok true ∧
+    (request true .cached .ok topLink [97]).1 = .ok true ∧
+    fget (request true .cached .ok topLink [97]).2 [[99], [5]] = some (.file 0o600 [1]) := by decide
+
+/-- non-vacuity of `request_failed_create`: on `mixed` (read-only and non-searchable directories, outside links, a cycle,
+`a.toml`, an SBOM file) the trait API's request with a failing `Layer::create` fails at stage `recreate`, as root and as
+an unprivileged owner, and leaves the new empty directory and no other own path; the sibling layer and the outside tree
+are as they were -/
+example : (request true .handle .createErr mixed [97]).1 = .error (.recreate, .buildpack) ∧
+    (request false .handle .createErr mixed [97]).1 = .error (.recreate, .buildpack) ∧
+    (request false .handle .createErr mixed [97]).2 =
+      [([layersName, [97]], .dir 0o755),
+       ([layersName], .dir 0o755), ([layersName, [97, 120]], .dir 0o755), ([layersName, [97, 120], [102]], .file 0o644 [3]),
+       ([layersName, tomlName [97, 120]], .file 0o644 [4]), ([[99]], .dir 0o700), ([[99], [5]], .file 0o600 [1])] := by
+  decide
+
+/-- the struct API has no creating callback: the same outcome parameter changes nothing there; and a layer that did not
+exist fails at stage `create` (nothing was deleted: `OldGone` is not demanded) -/
+example : (request true .cached .createErr mixed [97]).1 = .ok true ∧
+    (request true .handle .createErr [([layersName], .dir 0o755)] [97]).1 = .error (.create, .buildpack) := by decide
+
+/-- non-vacuity of `request_failed_decide`: the deciding callback fails on `mixed` — nothing changes at all; on a layer
+directory without metadata file the empty `<n>.toml` of the reader's normalisation is the one change; `uncached_layer`
+has no such callback -/
+example : (request false .cached .decideErr mixed [97]).1 = .error (.decide, .buildpack) ∧
+    (request false .cached .decideErr mixed [97]).2 = mixed ∧
+    (request true .handle .decideErr mixed [97]).1 = .error (.decide, .buildpack) ∧
+    (request true .handle .decideErr mixed [97]).2 = mixed ∧
+    (request true .handle .decideErr [([layersName], .dir 0o755), ([layersName, [97]], .dir 0o700)] [97]).1 =
+      .error (.decide, .buildpack) ∧
+    (request true .handle .decideErr [([layersName], .dir 0o755), ([layersName, [97]], .dir 0o700)] [97]).2 =
+      [([layersName, tomlName [97]], .file 0o644 emptyToml), ([layersName], .dir 0o755), ([layersName, [97]], .dir 0o700)] ∧
+    (request true .uncached .decideErr mixed [97]).1 = .ok true := by decide
+
+/-- `OldGone` is not vacuous — what a recreate that removes only the layer *directory* before calling `Layer::create`
+leaves when that callback fails (the new empty directory beside the old `a.toml` and the old SBOM file) is rejected,
+as is a surviving entry below the directory; the state the model leaves is accepted -/
+example :
+    let stale : FS := [([layersName], .dir 0o755), ([layersName, [97]], .dir 0o755),
+      ([layersName, tomlName [97]], .file 0o644 [84]),
+      ([layersName, sbomName [97] [99, 100, 120, 46, 106, 115, 111, 110]], .file 0o644 [1, 2]),
+      ([layersName, [97, 120]], .dir 0o755), ([layersName, [97, 120], [102]], .file 0o644 [3]),
+      ([layersName, tomlName [97, 120]], .file 0o644 [4]), ([[99]], .dir 0o700), ([[99], [5]], .file 0o600 [1])]
+    frameB [97] mixed stale = true ∧ oldGoneB [97] mixed stale = false ∧
+    oldGoneB [97] mixed (ferase stale [layersName, sbomName [97] [99, 100, 120, 46, 106, 115, 111, 110]]) = false ∧
+    oldGoneB [97] mixed (([layersName, [97], [114]], Node.dir 0o777) :: (request true .handle .createErr mixed [97]).2) = false ∧
+    oldGoneB [97] mixed (request true .handle .createErr mixed [97]).2 = true ∧
+    intactB [97] mixed stale = false ∧ intactB [97] mixed mixed = true := by decide
 
 end CnbVerif.C11
